@@ -792,12 +792,25 @@ impl<'r> Lowerer<'r> {
         let ty = self.type_info.type_of(id);
         let ty = self.type_info.convert(&ty);
 
-        let to = self.tmp(ty);
-
+        // Every field is evaluated into its own temporary first. These stay
+        // live until all fields have been evaluated, because a later field
+        // can leave the function early (with `return` or `?`), in which case
+        // the fields that were already evaluated must be dropped, and the
+        // record itself, which is only partially initialized at that point,
+        // must not.
+        let mut fields = Vec::new();
         for (s, expr) in &record.fields {
             let op = self.expr(expr);
             let field_ty = self.type_info.type_of(expr);
             let field_ty = self.type_info.convert(&field_ty);
+            let tmp = self.tmp(field_ty);
+            self.do_assign(Place::new(tmp.clone(), field_ty), field_ty, op);
+            fields.push((s, field_ty, tmp));
+        }
+
+        let to = self.tmp(ty);
+
+        for (s, field_ty, tmp) in fields {
             self.do_assign(
                 Place {
                     var: to.clone(),
@@ -805,7 +818,7 @@ impl<'r> Lowerer<'r> {
                     projection: vec![Projection::Field(**s)],
                 },
                 field_ty,
-                op,
+                Value::Move(tmp),
             );
         }
 
